@@ -128,10 +128,43 @@ def ts_occ(prog):
     return out
 
 
-def _stack_calls(fn, name):
+class _Virtual:
+    """a push performed by a private helper, seen at the helper's call site"""
+    def __init__(self, cs, args):
+        self.bb, self.line, self.callee, self.args, self.term = cs.bb, cs.line, cs.callee, args, cs.term
+
+
+def _push_helpers(prog, S):
+    """private methods of the solver that push exactly one state on every path (`fn push_model(&mut self, m)`):
+    {helper Fn: the pushed state as a term over the helper's parameters}"""
+    out = {}
+    if prog is None:
+        return out
+    for g in prog.lib_fns:
+        if g.impl_self != S or g.kind == "Closure" or g.name in ("decide", "new", "pop") or not any(b["term"]["k"] == "call" for b in g.blocks):
+            continue
+        ps = [cs for cs in g.terms.calls if cs.callee.name == "push" and cs.callee.key().startswith("std::vec::Vec")
+              and "state_stack" in show(cs.args[0])]
+        if len(ps) != 1:
+            continue
+        cs = ps[0]
+        if any(cs.bb in body for body in g.cfg.loop_headers.values()) or not all(g.cfg.dominates(cs.bb, r) for r in g.cfg.returns):
+            continue
+        out[g.npath] = (g, cs.args[1])
+    return out
+
+
+def _stack_calls(fn, name, prog=None):
     te = fn.terms
     out = [cs for cs in te.calls if cs.callee.name == name and cs.callee.key().startswith("std::vec::Vec")
            and "state_stack" in show(cs.args[0])]
+    if name == "push" and prog is not None:
+        helpers = _push_helpers(prog, "repr::unit_prop::SATSolver")
+        for cs in te.calls:
+            for h in prog.resolve(cs.callee) if (cs.callee.local or getattr(cs.callee, "res_local", False)) else []:
+                if h.npath in helpers and h is not fn:
+                    g, state = helpers[h.npath]
+                    out.append(_Virtual(cs, (cs.args[0], canon.subst(state, {i + 1: a for i, a in enumerate(cs.args)}))))
     if name == "pop":
         # `v.truncate(v.len() - 1)` / `v.truncate(v.len().saturating_sub(1))` drops exactly the last element too
         for cs in te.calls:
@@ -153,7 +186,7 @@ def ts_stk(prog):
     S = "repr::unit_prop::SATSolver"
     dec = prog.find1(name="decide", self_adt=S, unit="rsdd-lib")
     te = dec.terms
-    pushes = _stack_calls(dec, "push")
+    pushes = _stack_calls(dec, "push", prog)
     pops = _stack_calls(dec, "pop")
     push_bbs = {cs.bb for cs in pushes}
     cfg = dec.cfg
@@ -296,6 +329,7 @@ def ts_stk(prog):
         init = strip(solver[0][4][i])
         pushes = [cs for cs in te.calls if cs.callee.name == "push" and
                   ("state_stack" in show(cs.args[0]) or cs.args[0] == solver[0][4][i])]
+        pushes += [v_ for v_ in _stack_calls(newf, "push", prog) if isinstance(v_, _Virtual)]
         n_init = None
         for x in mir.subterms(init):
             if x[0] == "agg" and x[1] == "array":
@@ -328,6 +362,7 @@ def ts_bal(prog):
         fn, cs = ctx.fn, ctx.cs
         te = fn.terms
         pop_bbs = {c.bb for c in te.calls if c.callee.name == "pop" and "SATSolver" in c.callee.key()}
+        pop_bbs |= {c_.bb for c_, _v in tdctx.tail_sites(prog, fn)}      # a helper that conjoins and pops once
         dec_bbs = {c.bb for c in te.calls if tdctx.is_decide(c)}
         pol = ctx.pol
         # the switch on the decide result
